@@ -196,6 +196,10 @@ class Wrapc(util.WrapperMixin):
         """Add a list of C helpers."""
         c_helper = wformat(helpers, fmt)
         for helper in c_helper.split():
+            if helper not in whelpers.CHelpers:
+                raise RuntimeError(
+                    "No C helper '{}': the type is not supported "
+                    "by the statements '{}'".format(helper, helpers))
             self.c_helper[helper] = True
         
     def _gather_helper_code(self, name, done):
